@@ -10,6 +10,7 @@ from sfv.rt import recov
 from sfv.rt.par import pmap
 
 PHASES = ["schedule", "transfer", "execute"]
+K_SHARED = "workflow-fails-below-retry-limit:shared-producer-rolled-back-once-per-consumer-recovery"
 
 
 def shapes(rng: random.Random, quick: bool) -> list[dict]:
@@ -128,7 +129,7 @@ class C16(Property):
             for i, pl in enumerate(plans(rng, sh, quick)):
                 cases.append({"name": f"{tagname} plan{i} {json.dumps(pl)}", "shape": sh, "plan": pl, "max_retries": 6})
         results = {}
-        for case, status, r in pmap(recov.run_case, cases, timeout=400, workers=6):
+        for case, status, r in pmap(recov.run_case, cases, timeout=900, workers=6):
             results[case["name"]] = (case, status, r)
         lines, meta = [], []
         for name, (case, status, r) in results.items():
@@ -139,7 +140,19 @@ class C16(Property):
             ctx.case({"case": name[:160], "outcome": r["outcome"], "attempts": r.get("attempts")}, ("c", name),
                      case["shape"]["kind"] + (":ref" if case.get("ref") else ":faults"))
             if r["outcome"] != "ok":
-                ctx.fail(f"run:{r['outcome']}", f"{name}: {r.get('msg', '')[:300]}", replay)
+                # a producer that never failed itself reached max_retries because every consumer's recovery rolled it back again
+                injected_jobs = {j for j, _, _ in r.get("injected", [])}
+                limit = case.get("max_retries")
+                worn = [j for j, v in r.get("versions", {}).items() if limit and v >= limit and j not in injected_jobs
+                        and [e[0] for e in r.get("events", []) if e[1] == j].count("exec") - 1
+                        > sum(1 for k, (a, b) in enumerate(zip([None] + [e[0] for e in r["events"] if e[1] == j], [e[0] for e in r["events"] if e[1] == j]))
+                              if b == "lose" and a != "lose")]
+                if r["outcome"].startswith("exc:") and worn:
+                    ctx.fail(K_SHARED, f"{name}: the workflow failed although no job failed {limit} times: {worn} reached version {limit} — "
+                             f"executed {[r['attempts'].get(j) for j in worn]} times for {[[e[0] for e in r['events'] if e[1] == j].count('lose') for j in worn]} "
+                             f"loss(es) of its data, rolled back once per consumer recovery", replay)
+                else:
+                    ctx.fail(f"run:{r['outcome']}", f"{name}: {r.get('msg', '')[:300]}", replay)
                 continue
             bad = {s: st for s, st in r["statuses"].items() if st not in ("COMPLETED", "SKIPPED")}
             if bad:
